@@ -41,7 +41,7 @@ class SqliteSubscriptionsMixin:
             """
             INSERT OR REPLACE INTO event_subscriptions
             (id, event_types, entity_filter, last_sequence, webhook_url, updated_at)
-            VALUES (?, ?, ?, ?, ?, datetime('now', 'utc'))
+            VALUES (?, ?, ?, ?, ?, datetime('now'))
             """,
             (
                 subscription_id,
@@ -91,7 +91,7 @@ class SqliteSubscriptionsMixin:
         conn.execute(
             """
             UPDATE event_subscriptions
-            SET last_sequence = ?, updated_at = datetime('now', 'utc')
+            SET last_sequence = ?, updated_at = datetime('now')
             WHERE id = ?
             """,
             (last_sequence, subscription_id),
